@@ -83,6 +83,17 @@ Notation "'do' x <- r ; k" := (bind r (fun x => k)) (at level 200, x pattern, r 
 
 Definition of_opt {A} (o : option A) : res A := match o with Some a => Ok a | None => Exc end.
 
+(* Two facts about the current source that the pinned snapshot gets wrong (both are read from
+   flows.py by translator/gen_c14.py into Gen/C14Consts.v; Props/C14.v needs both to be true):
+     o_mark  - a flow that runs to its end in the very event that starts it is marked COMPLETED
+               (phase 1 does this for running flows; the snapshot's start loop does not: the
+               finished instance stays ACTIVE with a negative head and swallows the next
+               matching event);
+     o_guard - _call_subflow proposes the called subflow's head as next step only while that
+               subflow is ACTIVE (the snapshot also does it when the subflow is itself waiting
+               for a deeper subflow: the statement AFTER its own `do` is then proposed). *)
+Record opts := { o_mark : bool; o_guard : bool }.
+
 (* ---------------------------------------------------------------- _is_actionable / _is_match *)
 
 Definition is_actionable (el : elem) : bool :=
@@ -148,7 +159,7 @@ Definition record_next_step (s : state) (fs : fstate) (cfg : flow_config) (modif
 Definition new_fstate (uid : N) (flow : string) (head : Z) : fstate :=
   {| f_uid := uid; f_flow := flow; f_head := head; f_status := Active; f_intby := None |}.
 
-Fixpoint sws (fuel : nat) (cs : configs) (s : state) (fs : fstate) : res (state * fstate) :=
+Fixpoint sws (o : opts) (fuel : nat) (cs : configs) (s : state) (fs : fstate) : res (state * fstate) :=
   match fuel with
   | O => Fuel
   | S f =>
@@ -168,14 +179,15 @@ Fixpoint sws (fuel : nat) (cs : configs) (s : state) (fs : fstate) : res (state 
                 let sub := new_fstate (st_uid s1) name 0 in
                 let s2 := st_bump_uid s1 in
                 let fs2 := fs_head fs1 (h + 1) in
-                do r <- sws f cs s2 sub;
+                do r <- sws o f cs s2 sub;
                 let '(s3, sub') := r in
-                if f_head sub' <? 0 then sws f cs s3 fs2            (* finished at once: keep sliding *)
+                if f_head sub' <? 0 then sws o f cs s3 fs2            (* finished at once: keep sliding *)
                 else
                   let fs3 := fs_intby (fs_status fs2 Interrupted) (Some (f_uid sub')) in
                   let s4 := st_push s3 sub' in
                   do scfg <- of_opt (find_config cs (f_flow sub'));
-                  do s5 <- record_next_step s4 sub' scfg 1;
+                  do s5 <- (if o_guard o && negb (status_eqb (f_status sub') Active) then Ok s4
+                            else record_next_step s4 sub' scfg 1);
                   Ok (s5, fs3)
             | _ =>
                 do s2 <- record_next_step s1 fs1 cfg 1;
@@ -204,20 +216,20 @@ Fixpoint branch_match (els : list elem) (head : Z) (ev : event) (heads : list Z)
 Definition q09 : Q := nontrigger_modifier.
 
 (* phase 1: advance the existing flows.  Returns the new state and extension_flow_completed *)
-Fixpoint phase1 (fuel : nat) (cs : configs) (ev : event) (old : list fstate) (s : state) (ext : bool)
+Fixpoint phase1 (o : opts) (fuel : nat) (cs : configs) (ev : event) (old : list fstate) (s : state) (ext : bool)
   : res (state * bool) :=
   match old with
   | [] => Ok (s, ext)
   | fs :: rest =>
       match f_status fs with
-      | Completed | Aborted => phase1 fuel cs ev rest s ext
-      | Interrupted => phase1 fuel cs ev rest (st_push s fs) ext
+      | Completed | Aborted => phase1 o fuel cs ev rest s ext
+      | Interrupted => phase1 o fuel cs ev rest (st_push s fs) ext
       | Active =>
           do cfg <- of_opt (find_config cs (f_flow fs));
           do hel <- of_opt (pyidx (fc_elems cfg) (f_head fs));
           if negb (string_in (event_type ev) (fc_triggers cfg)) then
             do s1 <- record_next_step (st_push s fs) fs cfg q09;
-            phase1 fuel cs ev rest s1 ext
+            phase1 o fuel cs ev rest s1 ext
           else
             do mh <- match hel with
                      | LBranch heads => branch_match (fc_elems cfg) (f_head fs) ev heads None
@@ -225,16 +237,16 @@ Fixpoint phase1 (fuel : nat) (cs : configs) (ev : event) (old : list fstate) (s 
                      end;
             match (match mh with Some m => if m =? 0 then None else Some m | None => None end) with
             | Some m =>
-                do r <- sws fuel cs s (fs_head fs m);
+                do r <- sws o fuel cs s (fs_head fs m);
                 let '(s1, fs1) := r in
                 if f_head fs1 <? 0
-                then phase1 fuel cs ev rest (st_push s1 (fs_status fs1 Completed)) (ext || fc_extension cfg)
-                else phase1 fuel cs ev rest (st_push s1 fs1) ext
+                then phase1 o fuel cs ev rest (st_push s1 (fs_status fs1 Completed)) (ext || fc_extension cfg)
+                else phase1 o fuel cs ev rest (st_push s1 fs1) ext
             | None =>
                 do el <- of_opt (pyidx (fc_elems cfg) (f_head fs));
                 if is_actionable el || negb (fc_interruptible cfg)
-                then phase1 fuel cs ev rest (st_push s (fs_status fs Aborted)) ext
-                else phase1 fuel cs ev rest (st_push s (fs_status fs Interrupted)) ext
+                then phase1 o fuel cs ev rest (st_push s (fs_status fs Aborted)) ext
+                else phase1 o fuel cs ev rest (st_push s (fs_status fs Interrupted)) ext
             end
       end
   end.
@@ -246,18 +258,13 @@ Fixpoint list_set {A} (l : list A) (i : nat) (a : A) : list A :=
   | x :: t, S i' => x :: list_set t i' a
   end.
 
-(* phase 2: try to start new flows.
-   `mark` = "a flow that runs to its end in the very event that starts it is marked COMPLETED"
-   (what phase 1 does for running flows).  The pinned snapshot does NOT do this (mark = false):
-   the finished instance stays ACTIVE with a negative head and swallows the next matching
-   event (see Props/C14.v, C14_unmarked_start_refuted).  The flag is read from the current
-   source by translator/gen_c14.py into Gen/C14Consts.v. *)
-Fixpoint phase2 (mark : bool) (fuel : nat) (cs : configs) (ev : event) (todo : configs) (s : state) : res state :=
+(* phase 2: try to start new flows (o_mark: see `opts`) *)
+Fixpoint phase2 (o : opts) (fuel : nat) (cs : configs) (ev : event) (todo : configs) (s : state) : res state :=
   match todo with
   | [] => Ok s
   | cfg :: rest =>
-      if fc_subflow cfg then phase2 mark fuel cs ev rest s
-      else if negb (fc_multiple cfg) && has_flow (st_fss s) (fc_id cfg) then phase2 mark fuel cs ev rest s
+      if fc_subflow cfg then phase2 o fuel cs ev rest s
+      else if negb (fc_multiple cfg) && has_flow (st_fss s) (fc_id cfg) then phase2 o fuel cs ev rest s
       else
         match slide fuel (fc_elems cfg) 0 (st_ctx s) (st_upd s) with
         | SFuel => Fuel
@@ -270,11 +277,11 @@ Fixpoint phase2 (mark : bool) (fuel : nat) (cs : configs) (ev : event) (todo : c
               let fs := new_fstate (st_uid s1) (fc_id cfg) (sh + 1) in
               let i := List.length (st_fss s1) in
               let s2 := st_push (st_bump_uid s1) fs in
-              do r <- sws fuel cs s2 fs;
+              do r <- sws o fuel cs s2 fs;
               let '(s3, fs') := r in
-              let fs'' := if mark && (f_head fs' <? 0) then fs_status fs' Completed else fs' in
-              phase2 mark fuel cs ev rest (st_set_fss s3 (list_set (st_fss s3) i fs''))
-            else phase2 mark fuel cs ev rest s1
+              let fs'' := if o_mark o && (f_head fs' <? 0) then fs_status fs' Completed else fs' in
+              phase2 o fuel cs ev rest (st_set_fss s3 (list_set (st_fss s3) i fs''))
+            else phase2 o fuel cs ev rest s1
         end
   end.
 
@@ -331,7 +338,7 @@ Definition find_uid (l : list fstate) (u : N) : option fstate :=
   find (fun fs => N.eqb (f_uid fs) u) l.
 
 (* one `for flow_state in new_state.flow_states` pass of the resume loop, by index *)
-Fixpoint resume_pass (fuel : nat) (cs : configs) (s : state) (i : nat) (changes : bool) : res (state * bool) :=
+Fixpoint resume_pass (o : opts) (fuel : nat) (cs : configs) (s : state) (i : nat) (changes : bool) : res (state * bool) :=
   match fuel with
   | O => Fuel
   | S f =>
@@ -351,28 +358,28 @@ Fixpoint resume_pass (fuel : nat) (cs : configs) (s : state) (i : nat) (changes 
             if should_resume then
               let fs1 := fs_intby (fs_status fs Active) None in
               let s1 := st_set_fss s (list_set (st_fss s) i fs1) in
-              do r <- sws f cs s1 fs1;
+              do r <- sws o f cs s1 fs1;
               let '(s2, fs2) := r in
               let fs3 := if f_head fs2 <? 0 then fs_status fs2 Completed else fs2 in
-              resume_pass f cs (st_set_fss s2 (list_set (st_fss s2) i fs3)) (S i) true
+              resume_pass o f cs (st_set_fss s2 (list_set (st_fss s2) i fs3)) (S i) true
             else if should_abort then
               let fs1 := fs_intby (fs_status fs Aborted) None in
-              resume_pass f cs (st_set_fss s (list_set (st_fss s) i fs1)) (S i) true
-            else resume_pass f cs s (S i) changes
-          else resume_pass f cs s (S i) changes
+              resume_pass o f cs (st_set_fss s (list_set (st_fss s) i fs1)) (S i) true
+            else resume_pass o f cs s (S i) changes
+          else resume_pass o f cs s (S i) changes
       end
   end.
 
-Fixpoint resume_loop (fuel : nat) (cs : configs) (s : state) : res state :=
+Fixpoint resume_loop (o : opts) (fuel : nat) (cs : configs) (s : state) : res state :=
   match fuel with
   | O => Fuel
   | S f =>
-      do r <- resume_pass fuel cs s 0 false;
+      do r <- resume_pass o fuel cs s 0 false;
       let '(s1, changes) := r in
-      if changes then resume_loop f cs s1 else Ok s1
+      if changes then resume_loop o f cs s1 else Ok s1
   end.
 
-Definition compute_next_state (mark : bool) (fuel : nat) (cs : configs) (s : state) (ev : event) : res state :=
+Definition compute_next_state (o : opts) (fuel : nat) (cs : configs) (s : state) (ev : event) : res state :=
   match ev with
   | EvStartAct => Ok s
   | EvCtx data =>
@@ -381,9 +388,9 @@ Definition compute_next_state (mark : bool) (fuel : nat) (cs : configs) (s : sta
   | _ =>
       let ns := {| st_ctx := st_ctx s; st_fss := []; st_next := None; st_by := None; st_prio := 0;
                    st_upd := []; st_uid := st_uid s |} in
-      do r <- phase1 fuel cs ev (st_fss s) ns false;
+      do r <- phase1 o fuel cs ev (st_fss s) ns false;
       let '(s1, ext) := r in
-      do s2 <- phase2 mark fuel cs ev cs s1;
+      do s2 <- phase2 o fuel cs ev cs s1;
       do s3 <- (if ext then reactivate cs s2 0 (List.length (st_fss s2)) else Ok s2);
       let s4 := assign_intby s3 in
       do s5 <- match decision_flow s4 with
@@ -395,7 +402,7 @@ Definition compute_next_state (mark : bool) (fuel : nat) (cs : configs) (s : sta
                      Ok (st_set_fss s4 l)
                    else Ok s4
                end;
-      resume_loop fuel cs s5
+      resume_loop o fuel cs s5
   end.
 
 (* ---------------------------------------------------------------- compute_next_steps *)
@@ -426,12 +433,12 @@ Definition is_bot_stop (e : event) : bool :=
 Definition init_state : state :=
   {| st_ctx := []; st_fss := []; st_next := None; st_by := None; st_prio := 0; st_upd := []; st_uid := 0%N |}.
 
-Fixpoint run_events (mark : bool) (fuel : nat) (cs : configs) (s : state) (l : list event) : res state :=
+Fixpoint run_events (o : opts) (fuel : nat) (cs : configs) (s : state) (l : list event) : res state :=
   match l with
   | [] => Ok s
   | e :: rest =>
-      do s1 <- compute_next_state mark fuel cs s e;
-      run_events mark fuel cs (if is_bot_stop e then st_set_fss s1 [] else s1) rest
+      do s1 <- compute_next_state o fuel cs s e;
+      run_events o fuel cs (if is_bot_stop e then st_set_fss s1 [] else s1) rest
   end.
 
 Definition step_to_event (el : elem) : res out_event :=
@@ -450,12 +457,12 @@ Definition final_steps (s : state) (actual : list event) : res (list out_event) 
   | e => if match actual with [] => false | _ => is_bot_stop e end then Ok [] else Ok (upd ++ st)%list
   end.
 
-Definition compute_next_steps (mark : bool) (fuel : nat) (cs : configs) (hist : list event) : res (list out_event) :=
+Definition compute_next_steps (o : opts) (fuel : nat) (cs : configs) (hist : list event) : res (list out_event) :=
   do actual <- preprocess hist [];
-  do s <- run_events mark fuel cs init_state actual;
+  do s <- run_events o fuel cs init_state actual;
   final_steps s actual.
 
 (* the state after a history, for the proofs *)
-Definition state_after (mark : bool) (fuel : nat) (cs : configs) (hist : list event) : res state :=
+Definition state_after (o : opts) (fuel : nat) (cs : configs) (hist : list event) : res state :=
   do actual <- preprocess hist [];
-  run_events mark fuel cs init_state actual.
+  run_events o fuel cs init_state actual.
